@@ -1,13 +1,27 @@
 //! qe-native: rust-native exhaustive checkers, one subcommand per property.
-//! Each prints exactly one JSON summary line on stdout (see vlib/native.py).
+//! Usage: qe-native <id> <quick|thorough> <seed> [workdir]
+//! Each prints exactly one JSON summary line on stdout (see vlib/native.py):
+//! {"evaluations":N,"distinct_nontrivial":M,"violations":[..],"known":{id:example},"samples":[..],"counts":{..},"extra":{..}}
+
+mod out;
+mod c11;
+mod c12;
 
 fn main() {
     let args: Vec<String> = std::env::args().collect();
     let sub = args.get(1).map(|s| s.as_str()).unwrap_or("");
-    match sub {
+    let tier = args.get(2).map(|s| s.as_str()).unwrap_or("quick");
+    let seed: u64 = args.get(3).and_then(|s| s.parse().ok()).unwrap_or(0);
+    let work = args.get(4).cloned().unwrap_or_else(|| "/verif/work/native".to_string());
+    let quick = tier != "thorough";
+    std::panic::set_hook(Box::new(|_| {}));
+    let o = match sub {
+        "c11" => c11::run(quick, seed, &work),
+        "c12" => c12::run(quick, seed),
         _ => {
             eprintln!("unknown subcommand {sub}");
             std::process::exit(2);
         }
-    }
+    };
+    println!("{}", o.to_json());
 }
